@@ -49,6 +49,7 @@ type Env struct {
 
 // cliCatalogue: non-interactive commands of the real CLI, succeeding and failing.
 var cliCatalogue = map[string][]string{
+	// alphabet of the explorations
 	"bug-new":          {"bug", "new", "-t", "title", "-m", "message", "--non-interactive"},
 	"bug-show-missing": {"bug", "show", "0123abc"},
 	"bug-rm-missing":   {"bug", "rm", "0123abc"},
@@ -58,7 +59,37 @@ var cliCatalogue = map[string][]string{
 	"wipe":             {"wipe"},
 	"webui-bad-port":   {"webui", "--read-only", "--no-open", "--port", "99999"},
 	"termui-no-tty":    {"termui"},
+	// the remaining cache-opening commands (command sweep)
+	"bridge":                {"bridge"},
+	"bridge-auth":           {"bridge", "auth"},
+	"bridge-auth-add-token": {"bridge", "auth", "add-token", "sometoken", "-t", "github", "-l", "somelogin"},
+	"bridge-auth-show":      {"bridge", "auth", "show", "0123abc"},
+	"bridge-new":            {"bridge", "new", "--non-interactive", "--target", "nosuchtarget", "--name", "b"},
+	"bridge-pull":           {"bridge", "pull", "nosuchbridge"},
+	"bridge-push":           {"bridge", "push", "nosuchbridge"},
+	"bridge-rm":             {"bridge", "rm", "nosuchbridge"},
+	"bug-comment":           {"bug", "comment", "0123abc"},
+	"bug-comment-edit":      {"bug", "comment", "edit", "0123abc", "-m", "text", "--non-interactive"},
+	"bug-comment-new":       {"bug", "comment", "new", "0123abc", "-m", "text", "--non-interactive"},
+	"bug-deselect":          {"bug", "deselect"},
+	"bug-label":             {"bug", "label", "0123abc"},
+	"bug-label-new":         {"bug", "label", "new", "0123abc", "alabel"},
+	"bug-label-rm":          {"bug", "label", "rm", "0123abc", "alabel"},
+	"bug-select":            {"bug", "select", "0123abc"},
+	"bug-status":            {"bug", "status", "0123abc"},
+	"bug-status-close":      {"bug", "status", "close", "0123abc"},
+	"bug-status-open":       {"bug", "status", "open", "0123abc"},
+	"bug-title":             {"bug", "title", "0123abc"},
+	"bug-title-edit":        {"bug", "title", "edit", "0123abc", "-t", "other", "--non-interactive"},
+	"label":                 {"label"},
+	"push-missing":          {"push", "nosuchremote"},
+	"user":                  {"user"},
+	"user-adopt":            {"user", "adopt", "0123abc"},
+	"user-show":             {"user", "user", "show"},
 }
+
+// commands of the CLI that never open the cache (not part of the sweep)
+var cliNoCache = map[string]bool{"": true, "bridge auth rm": true, "commands": true, "version": true}
 
 // ---- process bookkeeping (so that nothing survives the check) -----------------------------------
 
@@ -662,8 +693,9 @@ func (x *execution) checkLiveLock(event string, actor string) {
 			}
 			x.clobbered[q] = true
 		} else {
-			// the model cannot vouch for q's lock any more: follow reality
-			delete(x.holding, q)
+			// q still holds the search index, its lock file does not protect it any more: whatever
+			// opens next would wait on the index for ever; the model stops here
+			x.res.Broken = true
 		}
 	}
 }
@@ -956,9 +988,9 @@ func (x *execution) evCLI(event, name string) {
 	code, stdout, stderr, pid, aborted := x.runCLI(args, watch)
 	x.deadPids[pid] = "cli"
 	if aborted {
-		x.obs(event, "not refused: changed the lock file of the live holder (command killed) lock-after="+lockKind(x.lockClass()), "")
-		x.report("open-not-refused", "command-"+name+"|"+x.ctx(),
-			fmt.Sprintf("%s (pid %d, alive) holds the cache, yet git-bug %s went past the lock file: it is now %s", q, x.holders[q].pid, strings.Join(args, " "), x.pidsText(x.lockClass())))
+		x.obs(event, "changed the lock file of the live holder while running (command killed) lock-after="+lockKind(x.lockClass()), "")
+		x.report("live-lock-clobbered", "by-command-"+name+"|"+x.ctx(),
+			fmt.Sprintf("%s (pid %d, alive) holds the cache, yet while git-bug %s was running the lock file became %s", q, x.holders[q].pid, strings.Join(args, " "), x.pidsText(x.lockClass())))
 		x.res.Broken = true
 		return
 	}
@@ -985,8 +1017,9 @@ func (x *execution) evCLI(event, name string) {
 		x.report("open-fails-without-live-holder", who+",lock-before="+lockKind(lockBefore)+"|"+x.ctx(),
 			fmt.Sprintf("no live process holds the cache (lock file before: %s) but %q was refused: %s", x.pidsText(lockBefore), event, firstLine(stderr)))
 	}
-	// every command releases the lock, on success and on failure
-	if lc != "absent" {
+	// every command releases the lock, on success and on failure: the lock file must not be the
+	// command's own (a lock the command never took is judged by the open oracles above)
+	if strings.TrimSpace(readFileString(x.lockPath())) == strconv.Itoa(pid) {
 		x.report("lock-left-after-command", name+"-"+ident,
 			fmt.Sprintf("git-bug %s exited with status %d and left the lock file (%s) behind; stderr: %s",
 				strings.Join(args, " "), code, x.pidsText(lc), firstLine(stderr)))
